@@ -70,7 +70,10 @@ func VerifC08Opening() {
 		pa.Parts[0][channel.TestBackendID].Equal(p.Acc[0].Address()) && pb.Parts[0][channel.TestBackendID].Equal(p.Acc[0].Address()) &&
 		pa.Parts[1][channel.TestBackendID].Equal(p.Acc[1].Address()) && pb.Parts[1][channel.TestBackendID].Equal(p.Acc[1].Address()))
 	for _, ch := range []*client.Channel{chA, chB} {
-		tx := ch.VerifMachine().CurrentTX()
+		var tx channel.Transaction
+		var ph channel.Phase
+		free := ch.VerifLocked(func(m channel.Source) { tx, ph = m.CurrentTX().Clone(), m.Phase() })
+		rt.Assert("c08.open.mutex-free", free)
 		ok := tx.State != nil && tx.State.Version == 0 && tx.State.ID == pa.ID() && !tx.State.IsFinal && len(tx.Sigs) == 2 &&
 			rt.BigEq(tx.State.Balances[0][0], al.Balances[0][0]) && rt.BigEq(tx.State.Balances[0][1], al.Balances[0][1]) && len(tx.State.Locked) == 0
 		rt.Assert("c08.open.initial-state", ok)
@@ -80,6 +83,6 @@ func VerifC08Opening() {
 				rt.Assert("c08.open.fully-signed", err == nil && v)
 			}
 		}
-		rt.Assert("c08.open.phase", ch.VerifMachine().Phase() == channel.Acting)
+		rt.Assert("c08.open.phase", ph == channel.Acting)
 	}
 }
